@@ -78,9 +78,13 @@ class Ctx:
 class TreeDriver:
     def __init__(self, name, value_kinds, rich_depth=1, layer_targets=('',),
                  clear_targets=('', 'a'), coarse=True, max_layers=2,
-                 key_depth=3, aliases=0):
+                 key_depth=3, aliases=0, names=NAMES, reassign=False):
         self.aliases = aliases
-        self.keys = tuple(k for k in KEYS if k.count('/') < key_depth)
+        self.reassign = reassign
+        all_keys = tuple('/'.join(p) for n in (1, 2, 3)
+                         for p in itertools.product(names, repeat=n))
+        self.all_keys = all_keys
+        self.keys = tuple(k for k in all_keys if k.count('/') < key_depth)
         self.max_layers = max_layers
         self.name = name
         self.value_kinds = tuple(value_kinds)
@@ -116,6 +120,8 @@ class TreeDriver:
         ctx.counter = 0
         ctx.detached = []       # (real child, was_visible) of the last clear
         ctx.aliased = 0
+        ctx.replaced = None     # (key, model handle) last overwritten
+        ctx.reassigned = 0
         return ctx
 
     # -- values ------------------------------------------------------------
@@ -169,6 +175,8 @@ class TreeDriver:
                     for dst in short:
                         if dst != src and not dst.startswith(src + '/'):
                             ops.append(('alias', src, dst))
+        if self.reassign and ctx.replaced is not None and ctx.reassigned < 1:
+            ops.append(('reassign',))
         for t in self.clear_targets:
             if t == '' or isinstance(ctx.model.visible(t), MM):
                 ops.append(('clear', t))
@@ -187,8 +195,16 @@ class TreeDriver:
     def apply(self, ctx, op):
         kind = op[0]
         ctx.detached = []
-        if kind in ('set', 'alias'):
-            if kind == 'alias':
+        if kind in ('set', 'alias', 'reassign'):
+            if kind == 'reassign':
+                # the very object that was overwritten at this key is
+                # assigned there again: the latest assignment wins
+                key, mv = ctx.replaced
+                real, vkind = mv.obj, 'reassign'
+                ctx.replaced = None
+                ctx.reassigned += 1
+                ctx.hits['overwritten_object_assigned_again'] += 1
+            elif kind == 'alias':
                 # the same handle object is stored at a second place: its
                 # back-link follows the latest assignment
                 _, src, key = op
@@ -224,6 +240,9 @@ class TreeDriver:
                     ctx.hits['handle_replaces_subtree'] += 1
                 if any(last in layer for layer in mm.layers[1:]):
                     ctx.hits['handle_over_lower_layer'] += 1
+                old = mm.layers[0].get(last)
+                if isinstance(old, MH) and old is not mv and kind == 'set':
+                    ctx.replaced = (key, old)
                 mm.layers[0][last] = mv
                 mv.home = (id(mm), last)
             else:
@@ -300,7 +319,7 @@ class TreeDriver:
         m = ctx.root
         obs = []
         sent = object()
-        for key in KEYS:
+        for key in self.all_keys:
             want = self._lookup(ctx, key)
             feats = dict(depth=key.count('/') + 1,
                          expected='absent' if want is None else
@@ -421,7 +440,9 @@ class TreeDriver:
             if isinstance(o, (H, Res)):
                 return '~' + o.label
             return None
-        return canon((ctx.root,), namer, coarse=self.coarse)
+        return (canon((ctx.root,), namer, coarse=self.coarse),
+                ctx.replaced[0] if (self.reassign and ctx.replaced) else None,
+                ctx.reassigned if self.reassign else 0)
 
 
 def _name_of(mm, node):
@@ -447,11 +468,33 @@ def drivers(tier):
                 'depth2-fixpoint', kinds, rich_depth=1, layer_targets=('', 'a'),
                 key_depth=2, aliases=1),
                 dict(max_states=300000, time_budget=200)),
+            # an object that was overwritten is assigned again
+            'reassign': (TreeDriver(
+                'reassign', ('handle', 'empty'), rich_depth=0,
+                layer_targets=('',), clear_targets=('',), key_depth=2,
+                names=('a',), reassign=True),
+                dict(max_states=300000, time_budget=200)),
+            # empty path components are legal names too ('/x', 'x/', '')
+            'empty-names': (TreeDriver(
+                'empty-names', ('handle', 'empty'), rich_depth=0,
+                layer_targets=(), clear_targets=('',), key_depth=2,
+                names=('', 'x')),
+                dict(max_states=300000, time_budget=200)),
             'depth3-bounded': (TreeDriver(
                 'depth3-bounded', kinds, rich_depth=1, layer_targets=('',)),
                 dict(max_depth=3)),
         }
     return {
+        'reassign': (TreeDriver(
+            'reassign', ('handle', 'empty', 'layered'), rich_depth=1,
+            layer_targets=('',), clear_targets=('', 'a'), key_depth=2,
+            names=('a', 'b'), reassign=True, max_layers=2),
+            dict(max_states=1000000, time_budget=900)),
+        'empty-names': (TreeDriver(
+            'empty-names', ('handle', 'empty', 'layered'), rich_depth=1,
+            layer_targets=('',), clear_targets=('',), key_depth=3,
+            names=('', 'x')),
+            dict(max_states=1000000, time_budget=900)),
         'depth2-fixpoint': (TreeDriver(
             'depth2-fixpoint', kinds, rich_depth=2, layer_targets=('', 'a'),
             key_depth=2, max_layers=3, aliases=1),
@@ -483,6 +526,7 @@ def run(tier, rep):
                      handle_replaces_subtree=1, map_replaces_handle=1,
                      map_over_layered_handle=1, clear=1, clear_layered=1,
                      same_handle_at_two_places=1,
+                     overwritten_object_assigned_again=1,
                      add_layer=1, handle_over_lower_layer=1)
     for name, (driver, kw) in drivers(tier).items():
         kernel.explore(driver, rep, part=name, params=driver.params(), **kw)
